@@ -10,6 +10,7 @@ CONSTANTS
   RspData <- MCRspData1
   MaxReq = 3
   MaxDrain = 1
+  Deviations = {}
 INVARIANTS TypeOK ExactlyOnceRouting OwnerIsAddressRangeOwner PayloadPreserved RspToOriginator
            DrainAckOnlyWhenEmpty NoForwardWhilePaused DrainedNoOwnTraffic AllDrainedQuiet AllAnswered
 CHECK_DEADLOCK FALSE
